@@ -27,6 +27,7 @@ func init() {
 			Trusted:     commonTrusted,
 		},
 		Mutants: []Mutant{
+			{Name: "InMemLoader.Set overwrites the previous entry's buffer in place", File: "loader.go", Old: "\tl.files[templatePath] = []byte(contents)", New: "\tif old, ok := l.files[templatePath]; ok && len(old) >= len(contents) {\n\t\tl.files[templatePath] = old[:copy(old, contents)]\n\t\treturn\n\t}\n\tl.files[templatePath] = []byte(contents)", Rule: "C19.inmem"},
 			{Name: "Multi.Open gives up at the first loader that reports another error than not-exist (agent seed C19/2)", File: "loaders/multi/multi.go", Old: "\t\tif f, err := loader.Open(name); err == nil {\n\t\t\treturn f, nil\n\t\t}\n", New: "\t\tf, err := loader.Open(name)\n\t\tif err == nil {\n\t\t\treturn f, nil\n\t\t}\n\t\tif !os.IsNotExist(err) {\n\t\t\treturn nil, err\n\t\t}\n", Rule: "C19.multi"},
 			{Name: "normalize cleans before rooting, so ../x keeps its dots (agent seed C19/1)", File: "loader.go", Old: "\ttemplatePath = filepath.ToSlash(templatePath)\n\treturn path.Join(\"/\", templatePath)", New: "\ttemplatePath = path.Clean(filepath.ToSlash(templatePath))\n\tif !path.IsAbs(templatePath) {\n\t\ttemplatePath = \"/\" + templatePath\n\t}\n\treturn templatePath", Rule: "C19.inmem"},
 			{Name: "equivalent: normalize as path.Clean(\"/\" + ToSlash(p))", File: "loader.go", Old: "\ttemplatePath = filepath.ToSlash(templatePath)\n\treturn path.Join(\"/\", templatePath)", New: "\ttemplatePath = filepath.ToSlash(templatePath)\n\treturn path.Clean(\"/\" + templatePath)", Rule: "-"},
@@ -272,6 +273,10 @@ func hasNotDirConjunct(e ast.Expr) bool {
 
 func inmemRules(c *an.Ctx) {
 	p := c.P
+	// "Open(p) yields exactly the content stored under p": the stored bytes are a private copy that is never written again
+	ns := checkFresh(c, "C19.inmem", fieldIndexStores(c, "InMemLoader.files"), "content that shares storage with an earlier entry or with the caller changes after it was stored, so a reader returned by Open sees bytes that were never Set under that path", false)
+	c.Expect("C19.inmem", "stores into InMemLoader.files", ns, 1)
+	inPlaceWrites(c, "C19.inmem", "InMemLoader.files", "a reader returned by an earlier Open would see a mix of old and new content")
 	info := p.Jet.TypesInfo
 	norm := c.Fn("C19.inmem", "(*InMemLoader).normalize")
 	if norm == nil {
